@@ -252,3 +252,9 @@ where
         })
     }
 }
+
+#[cfg(feature = "verif-kani")]
+mod kani_proofs;
+
+#[cfg(all(test, feature = "verif-hooks"))]
+mod verif_replays;
